@@ -8,9 +8,10 @@
    (the built-in ErrorResult or a user defined type), possibly declared flags and possibly a status shared
    with another error (told apart by the goa-error header).
 
-   The endpoint's error responses are resolved the way HTTPEndpointExpr.Prepare does it (Source): the method's
-   own responses, then for every method level error the service's responses and only then the API's, then the
-   same for the service level errors.
+   The endpoint's error responses are resolved the way the expr package does it (Source): HTTPServiceExpr.Prepare
+   first copies the API's response of every service level error without a service level response into the
+   service's list; HTTPEndpointExpr.Prepare then takes the method's own responses, then for every method level
+   error the response in the service's list and only then the API's, then the same for the service level errors.
 
    The service method is called once per declared error (returning it, possibly wrapped), then once more with
    an undeclared goa ServiceError with some flags, a plain Go error, or a request that does not even decode.
